@@ -112,6 +112,49 @@ theorem panic_propagates_unsound : ¬ PanicPropagatesFull := by
 
 theorem panic_witnesses_partial_ok : panicWitnesses.all (fun w => partialOk w.2) = true := by decide
 
+/-! ## prefix monotonicity (what a truncated input does to `filter` / `proj` / `limit` / `window`) -/
+
+/-- A streaming executor fed a prefix of its fault-free input — its child died, or failed — has
+sent a prefix of its fault-free output. -/
+theorem prefix_monotone {α : Type} (o : Op1 α) (ho : o.Streaming) (t t0 : Tr α) (h : t.chunks <+: t0.chunks) :
+    (o.exec t).chunks <+: (o.exec t0).chunks := by
+  have hp := Phase.run_outs_prefix o.ph t.fin t0.fin t.chunks t0.chunks o.init h
+  have hfin : ∀ (outs : List α) (r : Except Nat o.σ), (finish o.onEnd outs r).chunks = outs := by
+    intro outs r
+    cases r with
+    | error e => rfl
+    | ok s => simp [finish, ho s]
+  simp only [Op1.exec, hfin]
+  exact hp
+
+theorem streamOp_streaming (id : Nat) (outs : List Nat) (f : Option Nat) : (streamOp id outs f).Streaming := fun _ => rfl
+theorem limitOp_streaming (id limit offset : Nat) : (limitOp id limit offset).Streaming := fun _ => rfl
+
+theorem applyFault_chunks_prefix {α : Type} (ft : Option Fault) (t : Tr α) : (applyFault ft t).chunks <+: t.chunks := by
+  cases ft with
+  | none => exact List.prefix_refl _
+  | some f =>
+    unfold applyFault
+    simp only
+    by_cases h : f.k < t.items
+    · simp only [h, if_true]; cases f.kind <;> exact List.take_prefix _ _
+    · simp only [h, if_false]; exact List.prefix_refl _
+
+/-- Over a chain of streaming executors, whatever faults are armed (errors, panics, any number,
+anywhere): the chunks the root sends are a prefix of the fault-free chunks. So when such a
+statement wrongly returns `Ok`, its rows are exactly a prefix of the right answer. -/
+theorem stream_chain_prefix {α : Type} : ∀ (p : Plan α), p.StreamChain → p.tr.chunks <+: p.clean.tr.chunks
+  | .leaf ft out, _ => by
+    simp only [Plan.tr, Plan.clean]
+    exact applyFault_chunks_prefix ft out
+  | .unary ft o c, h => by
+    simp only [Plan.tr, Plan.clean]
+    have ih := stream_chain_prefix c h.2
+    have : applyFault none (o.exec c.clean.tr) = o.exec c.clean.tr := rfl
+    rw [this]
+    exact List.IsPrefix.trans (applyFault_chunks_prefix ft _) (prefix_monotone o h.1 _ _ ih)
+  | .binary _ _ _ _, h => by cases h
+
 /-! ## DML -/
 
 /-- FULL statement: a failed INSERT/DELETE leaves the table unchanged — whatever is armed,
@@ -258,6 +301,8 @@ theorem delivery_incomplete_witness : ¬ DeliveryCompleteFull := by
 example : ∀ a ∈ ([.send 1, .recv, .send 2, .close, .recv] : List (ChanAct Nat)), a.isData = true := by decide
 
 
+example : (Plan.unary none (limitOp 2 4 0) (.unary none (streamOp 1 [2, 2, 1] none) (src3 (some ⟨1, .panic⟩)))).StreamChain :=
+  ⟨limitOp_streaming _ _ _, streamOp_streaming _ _ _, trivial⟩
 example : (Plan.unary none (streamOp 1 [2, 2, 1] none) (src3 (some ⟨1, .error⟩))).ErrHit :=
   Or.inr ⟨rfl, ⟨fun _ => rfl, fun _ => rfl⟩, ⟨1, rfl, by decide⟩⟩
 example : (Plan.unary none (limitOp 1 1 0) (src3 (some ⟨0, .error⟩))).NoPanic ∧
